@@ -378,6 +378,7 @@ func TestCheck(t *testing.T) {
 								got = append(got, e.Broker)
 							}
 						}
+						sort.Ints(got) // sub-requests of one call go out concurrently: their arrival order is not part of the outcome
 						key = fmt.Sprintf("%v:%v", got, err == nil)
 						if delay > ttl+time.Second {
 							for _, b := range got {
@@ -513,6 +514,7 @@ func TestCheck(t *testing.T) {
 									}
 								}
 							}
+							sort.Ints(got) // sub-requests of one call go out concurrently: their arrival order is not part of the outcome
 							key = fmt.Sprintf("%v:%v", got, err == nil)
 							if err != nil && v == nil {
 								v = &seqx.Viol{Sig: "failed-after-address-change:" + rn, Msg: fmt.Sprintf("%s issued %v after broker 2 moved to b2:9093 failed: %v (requests reached %v)", rn, delay, err, got)}
